@@ -62,6 +62,7 @@ ASSUMPTIONS = [
     "the ignore file is litter like everything else: unversioned it is an unknown file (and deleting it changes what the next call considers ignored - the model re-reads it per call); in half of the runs that have one it is versioned (tree.add)",
     "symlink targets are relative; after every treesim operation the tree is observed exactly as C09 does, so that the recorded kinds the model tracks are the ones the tree has",
     "the comparison of what the tree reports about versioned paths covers, for git, index entries only (a directory that is versioned merely through tracked files below it and has been replaced on disk by an untracked file or symlink is an ordinary unversioned path)",
+    "histories contain no commit that selects more than one path (treesim.MTree1): the bytes of the pack such a commit writes - hence the pack's md5 name and the order of every later index lookup - depend on the iteration order of a Rust HashSet in the dirstate iter_changes code, whose hash keys are drawn from the getrandom stream after process-history-dependent lazy initialisations, so one (seed, plan) gave different event logs in different worker processes; pack/index names are additionally masked in the event log (treesim.mask_content_names)",
     "runs execute in-process (ISOLATION=thread): each run builds tree, nested trees, sentinel, model and Sim from scratch",
 ]
 STEP_CAP = 200000
@@ -463,7 +464,7 @@ def generate(rng, tier):
     weights = T.swarm_weights(rng)
     weights["illegal"] = 0
     weights["lockcycle"] = 0
-    model = T.MTree(flavour)  # every treesim guard on: the history never enters those states
+    model = T.MTree1(flavour)  # every treesim guard on: the history never enters those states
     ops = T.gen_ops(rng, model, rng.randint(3, 10), weights, names)
     lay = Layout(model)
     litter = gen_litter(rng, lay, rng.randint(3, 10))
@@ -707,12 +708,13 @@ def execute(sim, plan):
     scratch = os.environ["VERIF_SCRATCH"]
     root = os.path.join(scratch, "t")
     T.relativise_log(sim, root)
+    T.mask_content_names(sim)
     make_sentinel(scratch)
     from breezy import clean_tree, ignores
 
     ignores.get_user_ignores()  # creates BRZ_HOME/breezy/ignore now, not during a call under test
     tree = T.make_tree(sim, fl, "t")
-    model = T.MTree(fl)
+    model = T.MTree1(fl)
     # 1. the history
     for i, op in enumerate(plan["ops"]):
         if op.get("bad") or model.classify(op) != "ok":
